@@ -11,13 +11,16 @@ pub type Sel = u8;
 #[derive(Clone, Copy, Debug, PartialEq, Eq, Hash, PartialOrd, Ord, Serialize, Deserialize)]
 pub enum Kind {
     Trace,
+    /// `Trace::trace` panics after it has reported its fields
+    TraceEnd,
     Finalize,
     Drop,
     Action,
     Closure,
 }
 
-pub const KINDS: [Kind; 5] = [Kind::Trace, Kind::Finalize, Kind::Drop, Kind::Action, Kind::Closure];
+pub const KINDS: [Kind; 6] = [Kind::Trace, Kind::Finalize, Kind::Drop, Kind::Action, Kind::Closure, Kind::TraceEnd];
+pub const NKINDS: usize = 6;
 
 impl Kind {
     pub fn idx(self) -> usize {
@@ -27,6 +30,7 @@ impl Kind {
             Kind::Drop => 2,
             Kind::Action => 3,
             Kind::Closure => 4,
+            Kind::TraceEnd => 5,
         }
     }
 }
